@@ -149,4 +149,12 @@ RefusedChangesNothing ==
 (* Completing i retires i's not-completed record and only that one. *)
 WriteRetiresExactlyMatching ==
     [][\A i \in Ids : (comp'[i] # comp[i] /\ comp'[i] # None) => nc'[i] = None]_vars
+(* Derived views are FUNCTIONS OF THE ABSTRACT STATE (the harness compares the real `describe` and `validate`      *)
+(* tables with these after every transition): describe = the three cardinalities; validate = every member has a   *)
+(* correct checksum, none incorrect, none missing; "Has log" iff a log record exists.                               *)
+Held(f) == {i \in DOMAIN f : f[i] # None}
+Describe == [completed |-> Cardinality(Held(comp)), not_completed |-> Cardinality(Held(nc)),
+             logs |-> Cardinality({l \in DOMAIN logs : logs[l]})]
+Validate == [correct |-> Cardinality(Held(comp)) + Cardinality(Held(nc)), incorrect |-> 0, missing |-> 0,
+             haslog |-> \E l \in DOMAIN logs : logs[l]]
 =============================================================================
